@@ -31,7 +31,7 @@ func init() {
 				`eq($ro.ClientID, "") || eq($ro.ClientID, $authReq.ClientID)`,
 				`eq($ro.ResponseType, "") || eq($ro.ResponseType, $authReq.ResponseType)`,
 				"eq($ro.Issuer, $ro.ClientID)",
-				"true(slices.Contains($ro.Audience, $issuer))",
+				"member($issuer, $ro.Audience)",
 				"ok(oidc.CheckSignature(_, $authReq.RequestParam, _, $ro, nil, &jwtProfileKeySet{storage: $storage, clientID: $ro.Issuer}))",
 			}},
 		{ID: "E1.request-object.gated.provider", Fn: "op.Authorize", Kind: "call", Pat: "op.ParseRequestObject(_, $authReq, _, op.IssuerFromContext(_))", Max: 1,
